@@ -23,7 +23,8 @@ const char *const ctr_names[CT_N] = {
         "reference_not_admitted", "memory_checks", "objects_end_flush_to_guard", "objects_start_flush_to_guard",
         "chained_jobs", "out_of_place_jobs", "special_iv_jobs", "max_jobs_in_flight", "residue_scans", "sync_bursts",
         "direct_calls", "keyprep_calls", "sgl_segments", "cross_variant_runs", "ops_degraded_to_noop",
-        "reattach_through_other_library_image_with_old_image_inaccessible", "preemption_inside_a_call_fired", "preemption_point_not_reached"
+        "reattach_through_other_library_image_with_old_image_inaccessible", "preemption_inside_a_call_fired", "preemption_point_not_reached",
+        "invalid_scatter_gather_jobs_submitted"
 };
 
 // ------------------------------------------------------------------ plan <-> JSON
@@ -652,6 +653,8 @@ handback(Ctx &c, Task &t, IMB_JOB *r, const char *via)
         const bool completed = st == IMB_STATUS_COMPLETED;
         if (f->expect_invalid) {
                 ctr(c, CT_JOBS_INVALID);
+                if (f->mj.spec.cipher == IMB_CIPHER_GCM_SGL || f->mj.spec.cipher == IMB_CIPHER_CHACHA20_POLY1305_SGL)
+                        ctr(c, CT_SGL_INVALID);
                 if (st != IMB_STATUS_INVALID_ARGS) {
                         char b[300];
                         snprintf(b, sizeof b, "job violating '%s' handed back with status %d instead of INVALID_ARGS: %s",
